@@ -10,7 +10,8 @@ import Mathlib.Tactic.Linarith
 /-!
 # C19 — survey reductions (theorems about the regenerated `GenR.Survey` / `GenR.Convert`)
 
-1. `join_radiate`, `radiate_join`, `bearing_range`, `bearing_north`, `bearing_east`
+1. `join_radiate`, `radiate_join`, `bearing_range`, `bearing_north`, `bearing_east`, `bearing_south`,
+   `bearing_west`, `bearing_west_half`
 2. `rotation_scale`
 3. `va_conv_upper`, `va_conv_lower`, `va_pythagoras`, `va_heights`, `va_rejects`, `va_defined`
 4. `fvc_closed_form`, `fvc_proportional_closed`, `fvc_ciddor_form`, `fvc_proportional_co2`,
@@ -119,6 +120,42 @@ theorem bearing_east (x : ℝ) (hx : 0 < x) : (rect2polar x 0).2 = 90 := by
   simp only [h, hp, if_false, degrees_def]
   field_simp
   norm_num
+
+/-- due south is exactly 180 (the `atan2 = π` edge of the "not negative" branch). -/
+theorem bearing_south (y : ℝ) (hy : y < 0) : (rect2polar 0 y).2 = 180 := by
+  have h : Complex.arg (⟨y, 0⟩ : ℂ) = Real.pi := Complex.arg_ofReal_of_neg hy
+  have hp : ¬ (Real.pi < 0) := not_lt.mpr Real.pi_pos.le
+  rw [rect2polar_eq]
+  simp only [atan2_def]
+  simp only [h, hp, if_false, degrees_pi]
+
+/-- due west is exactly 270 (the wrapped branch: `degrees(-π/2) + 360`). -/
+theorem bearing_west (x : ℝ) (hx : x < 0) : (rect2polar x 0).2 = 270 := by
+  have h : Complex.arg (⟨0, x⟩ : ℂ) = -(Real.pi / 2) :=
+    Complex.arg_eq_neg_pi_div_two_iff.mpr ⟨rfl, hx⟩
+  have hp : -(Real.pi / 2) < 0 := by linarith [Real.pi_pos]
+  rw [rect2polar_eq]
+  simp only [atan2_def]
+  simp only [h, hp, if_true, degrees_def]
+  field_simp
+  norm_num
+
+/-- the western half-plane is exactly the bearings above 180: with a negative easting
+difference the wrapped branch is taken and the bearing lies in (180, 360). -/
+theorem bearing_west_half (x y : ℝ) (hx : x < 0) :
+    180 < (rect2polar x y).2 ∧ (rect2polar x y).2 < 360 := by
+  have hneg : Complex.arg (⟨y, x⟩ : ℂ) < 0 := Complex.arg_neg_iff.mpr hx
+  have h1 := Complex.neg_pi_lt_arg (⟨y, x⟩ : ℂ)
+  have d1 := degrees_lt _ h1
+  have d3 : PyR.degrees (-Real.pi) = -180 := by
+    simp only [degrees_def]; field_simp
+  rw [d3] at d1
+  have d4 := degrees_lt _ hneg
+  rw [degrees_zero] at d4
+  rw [rect2polar_eq]
+  simp only [atan2_def]
+  simp only [if_pos hneg]
+  constructor <;> linarith
 
 theorem rotation_scale (e n b d ρ k : ℝ) :
     radiations e n b d ρ k =
@@ -551,6 +588,9 @@ end GeodeVerif.C19
 #print axioms GeodeVerif.C19.join_radiate
 #print axioms GeodeVerif.C19.radiate_join
 #print axioms GeodeVerif.C19.bearing_range
+#print axioms GeodeVerif.C19.bearing_south
+#print axioms GeodeVerif.C19.bearing_west
+#print axioms GeodeVerif.C19.bearing_west_half
 #print axioms GeodeVerif.C19.rotation_scale
 #print axioms GeodeVerif.C19.va_pythagoras
 #print axioms GeodeVerif.C19.va_heights
